@@ -54,7 +54,7 @@ def gen_plan(rng, tier, i):
     layer = "frames" if rng.random() < 0.12 else "abstract"
     if layer == "abstract":
         return _gen_abstract(rng)
-    return _gen_frames(rng)
+    return _gen_frames(rng, tier)
 
 
 def _gen_abstract(rng):
@@ -123,9 +123,9 @@ def _topo_shuffle(rng, msgs):
     return order
 
 
-def _gen_frames(rng):
+def _gen_frames(rng, tier="quick"):
     nrep = rng.randint(2, 3)
-    nmsg = rng.randint(2, 6)
+    nmsg = rng.randint(2, 6) if tier != "thorough" else rng.randint(3, 10)  # thorough: more registrations per scenario
     msgs = []
     used_body = set()
     for j in range(nmsg):
